@@ -31,8 +31,10 @@ type c32SpvChain struct {
 	factor *big.Int
 }
 
+// The doubles hand out the SAME *big.Int objects on every call, as the
+// package's own local chain (and any caching chain handle) does.
 func (c *c32SpvChain) TxProofDifficultyFactor() (*big.Int, error) {
-	return new(big.Int).Set(c.factor), nil
+	return c.factor, nil
 }
 
 type c32RelayChain struct {
@@ -44,7 +46,7 @@ type c32RelayChain struct {
 func (c *c32RelayChain) CurrentEpoch() (uint64, error) { return c.epoch, nil }
 
 func (c *c32RelayChain) GetCurrentAndPrevEpochDifficulty() (*big.Int, *big.Int, error) {
-	return new(big.Int).Set(c.current), new(big.Int).Set(c.previous), nil
+	return c.current, c.previous, nil
 }
 
 const c32EpochLength = 2016
@@ -137,6 +139,15 @@ func c32GenCase(t *rapid.T) c32Case {
 	if verifkit.Thorough() && rapid.IntRange(0, 49).Draw(t, "longProof") == 49 {
 		c.factor = rapid.SampledFrom([]uint64{100, 2015, 2016, 2017, 4032, 4033}).Draw(t, "longFactor")
 	}
+	c32GenPosition(t, &c)
+	c.previous = c32GenDifficulty(t, "previous")
+	c.current = c32GenCurrent(t, c.previous)
+	return c
+}
+
+// c32GenPosition draws where the transaction sits (first block of the proof,
+// confirmations, latest height) for the relay epoch and factor of the case.
+func c32GenPosition(t *rapid.T, c *c32Case) {
 	// start block of the proof, placed around the epoch boundaries
 	cur := c.epoch * c32EpochLength
 	span := int64(c.factor) + 3
@@ -174,9 +185,6 @@ func c32GenCase(t *rapid.T) c32Case {
 	}
 	c.confirmations = uint(conf)
 	c.latest = uint(c.start + conf - 1)
-	c.previous = c32GenDifficulty(t, "previous")
-	c.current = c32GenCurrent(t, c.previous)
-	return c
 }
 
 // ---------------------------------------------------------------------------
@@ -235,97 +243,117 @@ func TestVerif_C32_ProofInfo(t *testing.T) {
 	defer st.Flush()
 	rapid.Check(t, func(t *rapid.T) {
 		c := c32GenCase(t)
-		btc := &c32BitcoinChain{latest: c.latest, confirmations: c.confirmations}
+		// One set of chain handles serves 1..3 calls (the maintainer asks for
+		// every unproven transaction in turn). The handles keep their own
+		// big integers; c.previous / c.current / c.factor stay the model's.
 		spvChain := &c32SpvChain{factor: new(big.Int).SetUint64(c.factor)}
-		relay := &c32RelayChain{epoch: c.epoch, current: c.current, previous: c.previous}
+		relay := &c32RelayChain{epoch: c.epoch, current: new(big.Int).Set(c.current), previous: new(big.Int).Set(c.previous)}
+		nCalls := rapid.SampledFrom([]int{2, 3, 1, 2}).Draw(t, "calls")
+		spanningBefore := 0
+		for call := 1; call <= nCalls; call++ {
+			if call > 1 && rapid.IntRange(0, 2).Draw(t, "otherTransaction") > 0 {
+				c32GenPosition(t, &c)
+			}
+			btc := &c32BitcoinChain{latest: c.latest, confirmations: c.confirmations}
 
-		ok, accumulated, required, err := getProofInfo(bitcoin.Hash{1}, btc, spvChain, relay)
-		if err != nil {
-			t.Fatalf("getProofInfo failed: %v", err)
-		}
+			ok, accumulated, required, err := getProofInfo(bitcoin.Hash{byte(call)}, btc, spvChain, relay)
+			if err != nil {
+				t.Fatalf("getProofInfo failed: %v", err)
+			}
+			// the chain handles' values belong to the handles
+			if relay.previous.Cmp(c.previous) != 0 || relay.current.Cmp(c.current) != 0 || spvChain.factor.Cmp(new(big.Int).SetUint64(c.factor)) != 0 {
+				t.Fatalf("call %d changed the numbers held by the chain handles: previous difficulty %s (was %s), current %s (was %s), factor %s (was %d)",
+					call, relay.previous, c.previous, relay.current, c.current, spvChain.factor, c.factor)
+			}
 
-		class, nPrev := c32Classify(c.start, c.factor, c.epoch)
-		render := fmt.Sprintf("latest=%d conf=%d (start=%d, epoch %d block %d) relayEpoch=%d factor=%d prev=%s cur=%s",
-			c.latest, c.confirmations, c.start, c.start/c32EpochLength, c.start%c32EpochLength, c.epoch, c.factor, c.previous, c.current)
+			class, nPrev := c32Classify(c.start, c.factor, c.epoch)
+			render := fmt.Sprintf("call %d/%d latest=%d conf=%d (start=%d, epoch %d block %d) relayEpoch=%d factor=%d prev=%s cur=%s",
+				call, nCalls, c.latest, c.confirmations, c.start, c.start/c32EpochLength, c.start%c32EpochLength, c.epoch, c.factor, c.previous, c.current)
 
-		// classification, both directions
-		if ok != (class != c32Outside) {
-			t.Fatalf("proof range classified within-relay-range=%v, the blocks %d..%d are %s relative to relay epoch %d\n %s",
-				ok, c.start, c.start+c.factor-1, class, c.epoch, render)
-		}
-		relation := "n/a"
-		delta := "n/a"
-		switch class {
-		case c32Outside:
-			if accumulated != 0 || required != 0 {
-				t.Fatalf("out-of-range proof reported confirmations %d / required %d, want 0 / 0\n %s", accumulated, required, render)
+			// classification, both directions
+			if ok != (class != c32Outside) {
+				t.Fatalf("proof range classified within-relay-range=%v, the blocks %d..%d are %s relative to relay epoch %d\n %s",
+					ok, c.start, c.start+c.factor-1, class, c.epoch, render)
 			}
-		case c32Current, c32Previous:
-			if accumulated != c.confirmations {
-				t.Fatalf("accumulated confirmations %d, the chain reports %d\n %s", accumulated, c.confirmations, render)
-			}
-			if uint64(required) != c.factor {
-				t.Fatalf("proof entirely in the %s epoch requires %d headers, want the factor %d\n %s", class, required, c.factor, render)
-			}
-		case c32Spanning:
-			if accumulated != c.confirmations {
-				t.Fatalf("accumulated confirmations %d, the chain reports %d\n %s", accumulated, c.confirmations, render)
-			}
-			if uint64(required) < nPrev {
-				t.Fatalf("required %d headers, fewer than the %d headers left in the previous epoch\n %s", required, nPrev, render)
-			}
-			k := uint64(required) - nPrev
-			// sufficient
-			if !c32Enough(nPrev, k, c.factor, c.previous, c.current) {
-				t.Fatalf("required %d headers (%d previous-epoch + %d current-epoch) accumulate less than %d x previous difficulty\n %s",
-					required, nPrev, k, c.factor, render)
-			}
-			// minimal
-			if k > 0 && c32Enough(nPrev, k-1, c.factor, c.previous, c.current) {
-				t.Fatalf("required %d headers (%d previous-epoch + %d current-epoch) but one header fewer already reaches %d x previous difficulty\n %s",
-					required, nPrev, k, c.factor, render)
-			}
-			// differential: the smallest k by linear search, where that is cheap
-			if k <= 20000 {
-				want := uint64(0)
-				for !c32Enough(nPrev, want, c.factor, c.previous, c.current) {
-					want++
+			relation := "n/a"
+			delta := "n/a"
+			switch class {
+			case c32Outside:
+				if accumulated != 0 || required != 0 {
+					t.Fatalf("out-of-range proof reported confirmations %d / required %d, want 0 / 0\n %s", accumulated, required, render)
 				}
-				if want != k {
-					t.Fatalf("required %d current-epoch headers, linear search finds %d\n %s", k, want, render)
+			case c32Current, c32Previous:
+				if accumulated != c.confirmations {
+					t.Fatalf("accumulated confirmations %d, the chain reports %d\n %s", accumulated, c.confirmations, render)
+				}
+				if uint64(required) != c.factor {
+					t.Fatalf("proof entirely in the %s epoch requires %d headers, want the factor %d\n %s", class, required, c.factor, render)
+				}
+			case c32Spanning:
+				if accumulated != c.confirmations {
+					t.Fatalf("accumulated confirmations %d, the chain reports %d\n %s", accumulated, c.confirmations, render)
+				}
+				if uint64(required) < nPrev {
+					t.Fatalf("required %d headers, fewer than the %d headers left in the previous epoch\n %s", required, nPrev, render)
+				}
+				k := uint64(required) - nPrev
+				// sufficient
+				if !c32Enough(nPrev, k, c.factor, c.previous, c.current) {
+					t.Fatalf("required %d headers (%d previous-epoch + %d current-epoch) accumulate less than %d x previous difficulty\n %s",
+						required, nPrev, k, c.factor, render)
+				}
+				// minimal
+				if k > 0 && c32Enough(nPrev, k-1, c.factor, c.previous, c.current) {
+					t.Fatalf("required %d headers (%d previous-epoch + %d current-epoch) but one header fewer already reaches %d x previous difficulty\n %s",
+						required, nPrev, k, c.factor, render)
+				}
+				// differential: the smallest k by linear search, where that is cheap
+				if k <= 20000 {
+					want := uint64(0)
+					for !c32Enough(nPrev, want, c.factor, c.previous, c.current) {
+						want++
+					}
+					if want != k {
+						t.Fatalf("required %d current-epoch headers, linear search finds %d\n %s", k, want, render)
+					}
+				}
+				switch c.current.Cmp(c.previous) {
+				case 0:
+					relation = "equal"
+				case 1:
+					relation = "increase"
+				default:
+					relation = "decrease"
+				}
+				switch {
+				case uint64(required) > c.factor:
+					delta = "more-than-factor"
+				case uint64(required) < c.factor:
+					delta = "fewer-than-factor"
+				default:
+					delta = "equals-factor"
 				}
 			}
-			switch c.current.Cmp(c.previous) {
-			case 0:
-				relation = "equal"
-			case 1:
-				relation = "increase"
-			default:
-				relation = "decrease"
+			// where an out-of-range proof lies
+			where := ""
+			if class == c32Outside {
+				switch {
+				case (c.start+c.factor-1)/c32EpochLength > c.epoch:
+					where = "outside:after-current"
+				case c.epoch == 0 || c.start/c32EpochLength < c.epoch-1:
+					where = "outside:before-previous"
+				default:
+					where = "outside:other"
+				}
 			}
-			switch {
-			case uint64(required) > c.factor:
-				delta = "more-than-factor"
-			case uint64(required) < c.factor:
-				delta = "fewer-than-factor"
-			default:
-				delta = "equals-factor"
+			nt := class == c32Spanning && c.current.Cmp(c.previous) != 0
+			history := ""
+			if class == c32Spanning {
+				history = fmt.Sprintf("spanning-calls-before-on-same-handles:%d", spanningBefore)
+				spanningBefore++
 			}
+			st.Case(nt, fmt.Sprintf("%s -> %v/%d/%d", render, ok, accumulated, required),
+				"class:"+class.String(), "difficulty:"+relation, "required:"+delta, where, fmt.Sprintf("call:%d", call), history)
 		}
-		// where an out-of-range proof lies
-		where := ""
-		if class == c32Outside {
-			switch {
-			case (c.start+c.factor-1)/c32EpochLength > c.epoch:
-				where = "outside:after-current"
-			case c.epoch == 0 || c.start/c32EpochLength < c.epoch-1:
-				where = "outside:before-previous"
-			default:
-				where = "outside:other"
-			}
-		}
-		nt := class == c32Spanning && c.current.Cmp(c.previous) != 0
-		st.Case(nt, fmt.Sprintf("%s -> %v/%d/%d", render, ok, accumulated, required),
-			"class:"+class.String(), "difficulty:"+relation, "required:"+delta, where)
 	})
 }
